@@ -509,4 +509,50 @@ theorem rt_index (a i : Expr) (ha : IdxBase d ch a) (hi : RT4 d ch i) : RT4 d ch
         (NoComma.cons c1 (NoComma.cons rfl (nc_single ac))) (by simp [tl4])
   | _ => exact absurd ha (by simp [IdxBase])
 
+/-! ### the records of the parts of the new nodes, from the induction hypothesis -/
+section recs
+variable {n : Nat} (ih : ∀ e, szE4 e ≤ n → FragE4 d e = true → RT4 d ch e)
+include ih
+theorem ordl_rec : ∀ os, szOrdL os ≤ n → ordTailOK4 d os = true → ∀ o ∈ os, OrdRec d ch o := by
+  intro os
+  induction os with
+  | nil => intro _ _ c hc; simp at hc
+  | cons o os iho =>
+    intro hs hf c hc
+    simp only [szOrdL] at hs
+    simp only [ordTailOK4, Bool.and_eq_true] at hf
+    rcases List.mem_cons.1 hc with rfl | hc
+    · obtain ⟨e, desc, nf, nl⟩ := c
+      have h1 := hf.1
+      simp only [ordItemOK4, Bool.and_eq_true, Bool.not_eq_true'] at h1
+      simp only [szOrdItem] at hs
+      exact ⟨ih e (by omega) h1.1, h1.2⟩
+    · exact iho (by omega) hf.2 c hc
+theorem winfn_rec (fn : Expr) (hs : szE4 fn ≤ n + 1) (hf : winFnOK4 d fn = true) : WinFn d ch fn := by
+  cases fn with
+  | func s nm ps =>
+    cases s with
+    | some s => simp [winFnOK4] at hf
+    | none =>
+      simp only [winFnOK4, Bool.and_eq_true] at hf
+      simp only [szE4] at hs
+      exact winFn_func nm ps hf.1 (fun a ha => by obtain ⟨x, y⟩ := frag2L_mem ps hf.2 a ha; exact ih a (by omega) x)
+  | agg nm ps dist =>
+    simp only [winFnOK4, Bool.and_eq_true] at hf
+    simp only [szE4] at hs
+    exact winFn_agg nm ps dist hf.1 (fun a ha => by obtain ⟨x, y⟩ := frag2L_mem ps hf.2 a ha; exact ih a (by omega) x)
+  | _ => simp [winFnOK4] at hf
+theorem idxbase_rec (a : Expr) (hs : szE4 a ≤ n + 1) (hf : idxBaseOK4 d a = true) : IdxBase d ch a := by
+  cases a with
+  | column t c => cases t <;> simpa [idxBaseOK4, IdxBase] using hf
+  | func s nm ps =>
+    cases s with
+    | some s => simp [idxBaseOK4] at hf
+    | none =>
+      simp only [idxBaseOK4, Bool.and_eq_true] at hf
+      simp only [szE4] at hs
+      exact ⟨hf.1, fun a ha => by obtain ⟨x, y⟩ := frag2L_mem ps hf.2 a ha; exact ih a (by omega) x⟩
+  | _ => simp [idxBaseOK4] at hf
+end recs
+
 end TQ2
